@@ -1421,6 +1421,13 @@ dialer_start_pipe(nni_dialer *d, nni_pipe *p)
 	nni_stat_set_id(&p->st_root, (int) p->p_id);
 	nni_stat_set_id(&p->st_id, (int) p->p_id);
 	nni_stat_register(&p->st_root);
+	// The pipe may have been closed since the protocol started it (the
+	// peer reset the connection): the reaper then may already have
+	// unregistered the statistics, and would leave this registration
+	// dangling once the pipe is freed.
+	if (nni_pipe_is_closed(p)) {
+		nni_stat_unregister(&p->st_root);
+	}
 #endif
 	nni_pipe_run_cb(p, NNG_PIPE_EV_ADD_POST);
 	if (nng_log_get_level() >= NNG_LOG_DEBUG) {
@@ -1530,6 +1537,13 @@ listener_start_pipe(nni_listener *l, nni_pipe *p)
 	nni_stat_set_id(&p->st_root, (int) p->p_id);
 	nni_stat_set_id(&p->st_id, (int) p->p_id);
 	nni_stat_register(&p->st_root);
+	// The pipe may have been closed since the protocol started it (the
+	// peer reset the connection): the reaper then may already have
+	// unregistered the statistics, and would leave this registration
+	// dangling once the pipe is freed.
+	if (nni_pipe_is_closed(p)) {
+		nni_stat_unregister(&p->st_root);
+	}
 #endif
 	nni_pipe_run_cb(p, NNG_PIPE_EV_ADD_POST);
 	if (nng_log_get_level() >= NNG_LOG_DEBUG) {
